@@ -21,7 +21,8 @@ EXPLANATION = (
     'JSON::parse(StringReader&, bool) is cut mechanically, on every run, into five C functions: the dictionary, list, number and string '
     'branches (brace blocks located by their introducing token sequence) and the dispatcher (the whole function text with each of those '
     'blocks replaced by a call); plus skip_whitespace_and_comments, value_for_hex_char and the two string entry points. Every access to the '
-    'input goes through a StringReader member function (static scan of JSON.cc) and every such call is replaced by its C01/C02 contract, so '
+    'input goes through a StringReader member function (static scan of JSON.cc); the bounds-checked accessors get_s8 / pget_s8 / skip_if are replaced '
+    'by their C01/C02 contracts (eof / where / size / go, which touch only the cursor, are inlined with their extracted bodies), so '
     '"never reads outside the input" is inherited from C02. The JSON value is an abstract stub (kind, int, element count, is_string, string '
     'length + byte at a ghost index). O-1: every piece is enforced against "verif_exc in {0, parse_error, out_of_range}, cursor inside the '
     'input and monotone, success => >= 1 byte consumed"; the recursive calls inside the container loops are replaced by the parser\'s own '
@@ -352,7 +353,7 @@ def json_unit(ctx, src, loops):
 
     def new_unit(name, rdc='RD(call)', rdg='RD(call)'):
         u = Unit(ctx, 'json_' + name)
-        u.raw('#define RDC(call) %s\n#define RDG(call) %s' % (rdc, rdg))
+        u.raw('#undef RDC\n#undef RDG\n#define RDC(call) %s\n#define RDG(call) %s' % (rdc, rdg))
         units.append(u)
         return u
     # the four trivial accessors (no bounds check, cannot throw) are used with their real bodies (inlined); the bounds-checked
@@ -450,7 +451,9 @@ def json_unit(ctx, src, loops):
     # (h) string entry points
     u = new_unit('entry')
     u.snippet(src, 'src/Strings.hh', r'\bStringReader\(const void\* data, size_t size, size_t offset = 0\);')
-    u.snippet(src, 'src/Strings.hh', r'inline int8_t get_s8\(bool advance = true\)')
+    # the two typed accessors whose C01/C02 contracts replace the calls: the one-liners over get<int8_t> / pget<int8_t>
+    u.snippet(src, 'src/Strings.hh', r'inline int8_t get_s8\(bool advance = true\) \{ return this->get<int8_t>\(advance\); \}')
+    u.snippet(src, 'src/Strings.hh', r'inline int8_t pget_s8\(size_t offset\) const \{ return this->pget<int8_t>\(offset\); \}')
     u.function(src, JS, CSTR_SIG, ret_zero='',
                new_header='void JSON_parse_cstr(const char* s, size_t size, bool disable_extensions, JVal* ret)',
                rules=[Rule(r'\bStringReader r\(s, size\);', 'StringReader verif_r; StringReader* r = &verif_r; StringReader_ctor(r, s, size, 0); C05_CSTR_ENTRY;', count=1, regex=True),
@@ -531,8 +534,6 @@ def plan(ctx):
     src = Source(ctx.src)
     core = rw_common.reader_core(ctx, src)
     core.write()
-    rw_common.tmpl_units(ctx, src)
-    rw_common.oneliners(ctx, src)
     units = json_unit(ctx, src, LOOPS)
     ctx.functions_under_contract = []
     for u in units:
